@@ -1982,7 +1982,8 @@ class Class(Object):
         """
         try:
             return self.all_members["__init__"].parameters  # type: ignore[union-attr]
-        except KeyError:
+        except (KeyError, AliasResolutionError, CyclicAliasError):
+            # No `__init__`, or one imported from something that cannot be resolved.
             return Parameters()
 
     @property
